@@ -40,6 +40,8 @@ def insert_into(
     dist: int,
     insert: Fragment,
     parent: Optional["Node"],
+    open_start: int = 0,
+    open_end: int = 0,
 ) -> Fragment | None:
     a = content.find_index(dist)
     index, offset = a["index"], a["offset"]
@@ -49,7 +51,18 @@ def insert_into(
             return None
         return content.cut(0, dist).append(insert).append(content.cut(dist))
     assert child
-    inner = insert_into(child.content, dist - offset - 1, insert, child)
+    # A node on an open side of the slice is still incomplete: replace() validates
+    # it once it has been joined, so only closed nodes are checked here.
+    first, last = index == 0, index == content.child_count - 1
+    on_open_side = (first and open_start > 0) or (last and open_end > 0)
+    inner = insert_into(
+        child.content,
+        dist - offset - 1,
+        insert,
+        None if on_open_side else child,
+        open_start - 1 if first and open_start > 0 else 0,
+        open_end - 1 if last and open_end > 0 else 0,
+    )
     if inner:
         return content.replace_child(index, child.copy(inner))
     return None
@@ -68,7 +81,14 @@ class Slice:
         return self.content.size - self.open_start - self.open_end
 
     def insert_at(self, pos: int, fragment: Fragment) -> Optional["Slice"]:
-        content = insert_into(self.content, pos + self.open_start, fragment, None)
+        content = insert_into(
+            self.content,
+            pos + self.open_start,
+            fragment,
+            None,
+            self.open_start,
+            self.open_end,
+        )
         if content:
             return Slice(content, self.open_start, self.open_end)
         return None
